@@ -158,6 +158,8 @@ def typed(value, cast):
         return value
     if cast == "int64" and float(value) == int(value) and abs(value) < 2**53:
         return np.int64(int(value))
+    if cast in ("uint8", "int8") and value in (0, 1):        # 0/1 error indicators as stored in a compact array (`.astype(np.uint8)`)
+        return (np.uint8 if cast == "uint8" else np.int8)(int(value))
     return np.float64(value)
 
 
@@ -171,10 +173,10 @@ class Runner:
         self.obs: list[list[str]] = []
         self.err = None
         self.det = None
-        # value TYPE: most runs feed Python numbers, a deterministic ~1 in 6 feeds the NumPy scalars detectors see in practice
+        # value TYPE: most runs feed Python numbers, a deterministic 1 in 3 feeds the NumPy scalars detectors see in practice
         # (elements of `(y_pred != y_true).astype(int)` or of a float64 array); the model line is the same number either way
         h = zlib.crc32(repr((cls, sorted((k, repr(v)) for k, v in params.items()))).encode()) % 12
-        self.cast = {0: "int64", 1: "float64"}.get(h) if TYPED_INPUTS else None
+        self.cast = {0: "int64", 1: "float64", 2: "uint8", 3: "int8"}.get(h) if TYPED_INPUTS else None
         if cls == "KSWIN":
             self._rng_state = np.random.get_state()
         try:
@@ -188,8 +190,9 @@ class Runner:
     def _record(self):
         self.obs.append(obs(self.cls, self.det))
 
-    def update(self, value, **kw):
-        """Returns the callbacks' logs (or None when the update raised)."""
+    def update(self, value, observe: bool = True, **kw):
+        """Returns the callbacks' logs (or None when the update raised).  `observe=False`: no attribute of the detector is read after this update
+        (state that is only materialised when somebody looks must still be right when it is looked at later); the model line is `uq`."""
         d = self.det
         tape = None
         if self.cls == "KSWIN":
@@ -208,11 +211,14 @@ class Runner:
             n_old = len(d.window) - d.config.num_test_instances
             tape = np.random.choice(n_old, d.config.num_test_instances, replace=False)
             np.random.set_state(after)
-        line = f"u {self.inst} {f2h(value)}"
+        line = f"{'u' if observe else 'uq'} {self.inst} {f2h(value)}"
         if tape is not None:
             line += " t=" + ",".join(str(int(i)) for i in tape)
         self.lines.append(line)
-        self._record()
+        if observe:
+            self._record()
+        else:
+            self.obs.append(None)
         return logs
 
     def reset(self):
